@@ -14,7 +14,7 @@ ID = 'C17'
 LEVEL = 'proof'
 RULE = ('witnesses of the 3 known findings; conv1d: full grid batch 1..2, C 1..4 x every divisor as groups x O in {g,2g}, '
         'L 1..5 (quick) / 1..7, K 1..3, stride 1..3, padding 0..2, dilation 1..2, positive output size, bias on/off, defaults passed as None '
-        'or as the explicit value, float32 and int element types, plus seeded cases beyond the grid (batch<=3, C<=6, L<=12, K<=5, s<=4, p<=3, d<=3); '
+        'or as the explicit value, a third of the points again with one-element index arrays as stride / padding / dilation (forms aaa, aia, iai, nan, ana), float32 and int element types, plus seeded cases beyond the grid (batch<=3, C<=6, L<=12, K<=5, s<=4, p<=3, d<=3) and on unbatched inputs (C, L) / (C, H, W) (off-domain: the reference is PyTorch\'s batch of one, squeezed); '
         'conv2d: seeded sample (700 quick / 15000 thorough) of the same ranges, batch 1..2, with None / int / pair argument forms; pooling: every (H,W) 1..5 '
         '(quick, interior thinned 1:3) / 1..7, kernel 1..3, stride 1..3 per axis, ceil on/off, 0..2 leading axes: shape_pool2d, slice_pool2d, window '
         'provenance fold through view::pool2d, max_pool2d, avg_pool2d (data -9..9, so all-negative windows occur; MODEL = fold over the window, exact for max, float32 for avg); '
@@ -49,21 +49,23 @@ ASSUMPTIONS = ['the tree under test carries the fix commits of fixes/C17-conv-ba
                'the conv theorems are stated over integer-valued arrays (Arr Int) for all inputs: an identity of term sets, not a statement about float rounding',
                'the element type of intermediate results (e.g. double inside vector_norm through std::pow(float, int)) is not modelled',
                'PyTorch itself is not available: the reference is lib/nn_ref_c17.py written from the documented formulas']
-PARTIAL = ['bilinear: the nested-loop definition is proved for rank-2 inputs (B, I) x (B, J) (bilinear_rank2_eq_def); for rank 1 and 3 (and rank 4 with middle leading extents of 1) the composition is modelled and compared with the real code and the oracle on every run but has no Lean theorem (missing: the matmulv2 term structure for the reshaped (B0, 1, B.., I) x (O, I, J) operands carried through multiply / sum / transpose); rank >= 4 in general (repaired defect bilinear.lead-axes, instance bilinear_rank4_regression) likewise',
+PARTIAL = ['bilinear: the nested-loop definition is proved for rank-1, rank-2 and rank-3 inputs (bilinear_rank1_eq_def, bilinear_rank2_eq_def, bilinear_rank3_eq_def); for rank >= 4 (repaired defect bilinear.lead-axes, instance bilinear_rank4_regression) the composition is modelled and compared with the real code and the oracle on every run but has no Lean theorem for all extents (missing: the matmulv2 term structure for the reshaped (B0, .., Bk, 1, Bk+1, I) x (O, I, J) operands with a lead of arbitrary length carried through multiply / sum / transpose)',
            'softmax / softmin / cosine_similarity are proved in the form the code computes (stabilised exponent, quotient summed term by term); equality with the textbook formula is proved under explicit algebraic laws of the element operations (softmax_eq_textbook, cosine_similarity_eq_textbook), which floating point satisfies only approximately',
            'batch_norm: theorem for rank-4 inputs (where the code agrees with PyTorch); other ranks are the known finding batch_norm.rank-not-4 (batch_norm_rank2_counterexample)',
-           'conv1d theorem covers None | int argument forms (one plane); conv2d theorem covers None | int | pair forms',
+           'conv1d theorems cover None | int | one-element index array forms (conv1d_forms_eq_code_loop, conv1d_forms_eq_nested_loop); conv2d theorems cover None | int | pair forms; the correspondence run serves 5 of the 19 conv1d combinations that contain an array (aaa, aia, iai, nan, ana) besides the 8 without',
            'conv*_eq_nested_loop (PyTorch group assignment) hold on groups = 1 or O = groups (outside: conv1d_groups_counterexample, conv2d_groups_counterexample); conv*_eq_code_loop hold for every groups with the code\'s assignment o % g']
 MANIFEST = dict(
-    text='Proof: 31 Lean theorems. conv1d and conv2d: the mirrored view::convnd pipeline (reshape by groups, pad, sliding_window of input and of the dilation-expanded weight, multiply, sum, reshape, bias, strided slice) is defined, has the extent floor((n+2p-d(k-1)-1)/s)+1 per plane and each element is the nested loop over (channel, kernel) terms, for every batch, extent, kernel, stride, padding, dilation, groups and optional bias (None / int forms, and pairs for conv2d) with the code\'s group assignment o % g; equal to the PyTorch loop for groups = 1 or one output channel per group, with kernel-checked counterexamples outside. Pooling: shape_pool2d = PyTorch extents in floor and ceil mode (with the last-window rule), every window is non-empty, inside the input and equal to the clipped reference window, for any number of leading axes; max_pool2d = left fold of max over exactly that window from its first element (the greatest element over the integers), avg_pool2d = window sum / number of window elements, the divisor PyTorch uses without padding. Over an abstract element type with opaque operations, for all ranks, extents and axes: softmax / softmin (which elements enter the maximum and the normalising sum: the line through the index along the axis), linear (sum_i x[p,i] w[o,i] + b[o]), pairwise_distance, cosine_similarity, layer / instance / group norm (mean and variance over exactly the trailing block / spatial block / consecutive-channel group), batch_norm on rank 4 and bilinear on rank-2 inputs. Tied to the headers by a differential run of every routine (model + nested-loop oracle) on every check.',
+    text='Proof: 35 Lean theorems. conv1d and conv2d: the mirrored view::convnd pipeline (reshape by groups, pad, sliding_window of input and of the dilation-expanded weight, multiply, sum, reshape, bias, strided slice) is defined, has the extent floor((n+2p-d(k-1)-1)/s)+1 per plane and each element is the nested loop over (channel, kernel) terms, for every batch, extent, kernel, stride, padding, dilation, groups and optional bias (None / int forms, and pairs for conv2d) with the code\'s group assignment o % g; equal to the PyTorch loop for groups = 1 or one output channel per group, with kernel-checked counterexamples outside. Pooling: shape_pool2d = PyTorch extents in floor and ceil mode (with the last-window rule), every window is non-empty, inside the input and equal to the clipped reference window, for any number of leading axes; max_pool2d = left fold of max over exactly that window from its first element (the greatest element over the integers), avg_pool2d = window sum / number of window elements, the divisor PyTorch uses without padding. Over an abstract element type with opaque operations, for all ranks, extents and axes: softmax / softmin (which elements enter the maximum and the normalising sum: the line through the index along the axis), linear (sum_i x[p,i] w[o,i] + b[o]), pairwise_distance, cosine_similarity, layer / instance / group norm (mean and variance over exactly the trailing block / spatial block / consecutive-channel group), batch_norm on rank 4 and bilinear on rank-1, rank-2 and rank-3 inputs. Tied to the headers by a differential run of every routine (model + nested-loop oracle) on every check.',
     note='Lean kernel + propext/Classical.choice/Quot.sound; model hand-written, fidelity rests on the correspondence run; theorems about softmax / norms / linear / distances are about term selection and fold order over abstract operations (float tolerance 4 ulp x terms is the harness\'s); five defects found by this check were repaired in /repo (fixes/C17-*.diff); two known findings remain (conv group interleaving for O/groups > 1, batch_norm on rank 2/3 inputs).',
     technique='Lean 4 proofs over the mirrored convnd / pool2d index pipeline and over compositions of the C06-C08 / C16 models (Mathlib ring tactic in lemma files only) + differential correspondence (IMPL vs Lean MODEL at Float32 / Int vs independent nested-loop NumPy oracle)')
 
 H_C1, H_C2A, H_C2B, H_POOL, H_NORM, H_LIN = 'h_c17_conv1d', 'h_c17_conv2d_nb', 'h_c17_conv2d_b', 'h_c17_pool', 'h_c17_norm', 'h_c17_lin'
+H_C1A = 'h_c17_conv1d_arr'     # conv1d with one-element index arrays as stride / padding / dilation
 
 
 def harness_specs(tier):
     return [dict(name=H_C1, src='h_c17_conv1d.cpp', flavour='fast'),
+            dict(name=H_C1A, src='h_c17_conv1d_arr.cpp', flavour='fast'),
             dict(name=H_C2A, src='h_c17_conv2d.cpp', flavour='fast', extra=('-DC17_BIAS=0',)),
             dict(name=H_C2B, src='h_c17_conv2d.cpp', flavour='fast', extra=('-DC17_BIAS=1',)),
             dict(name=H_POOL, src='h_c17_pool.cpp', flavour='fast'),
@@ -169,6 +171,14 @@ def k_conv_groups(c):
     return g > 1 and ints(a['ws'])[0] // g > 1
 
 
+def k_conv_unbatched_groups(c):
+    """conv1d / conv2d on an unbatched input (C, *spatial) with groups > 1"""
+    if not (c.req.startswith('conv1d ') or c.req.startswith('conv2d ')):
+        return False
+    a = argstr(c.req)
+    return len(ints(a['xs'])) == len(ints(a['ws'])) - 1 and int(a['groups']) > 1
+
+
 def k_batch_norm_rank(c):
     return c.req.startswith('batch_norm ') and len(ints(argstr(c.req)['xs'])) != 4
 
@@ -183,6 +193,7 @@ def k_bilinear_lead(c):
 
 KNOWN_PREDICATES = {
     'conv_groups_interleaved': k_conv_groups,
+    'conv_unbatched_groups': k_conv_unbatched_groups,
     'batch_norm_rank_not4': k_batch_norm_rank,
     'bilinear_lead_axes': k_bilinear_lead,
 }
@@ -210,8 +221,10 @@ def h32(s):
 
 
 def conv_case(rng, nsp, N, C, g, O, sp, ks, s, p, d, bias, forms, dt='f', model=True):
-    """forms: for stride/padding/dilation one of 'none' | 'int' | 'pair' (none only legal for the default value)"""
-    xs = [N, C] + list(sp)
+    """forms: for stride/padding/dilation one of 'none' | 'int' | 'pair' (none only legal for the default value);
+    N = None: unbatched input (C, *spatial), the reference is PyTorch's (a batch of one, squeezed)"""
+    unbatched = N is None
+    xs = ([] if unbatched else [N]) + [C] + list(sp)
     ws = [O, C // g] + list(ks)
     x = rints(rng, prod(xs), -3, 3)
     w = rints(rng, prod(ws), -3, 3)
@@ -232,21 +245,26 @@ def conv_case(rng, nsp, N, C, g, O, sp, ks, s, p, d, bias, forms, dt='f', model=
         oi(sv), oi(pv), oi(dv), g)
     if nsp == 2:
         req = req.replace(' dt=%s' % dt, '')
+    arr1 = nsp == 1 and 'pair' in forms          # conv1d with one-element index arrays: other harness TU, `forms=` tells which
+    if arr1:
+        req += ' forms=' + ''.join({'none': 'n', 'int': 'i', 'pair': 'a'}[f] for f in forms)
     try:
-        out = ref.convnd(np.array(x, dtype=object).reshape(xs), np.array(w, dtype=object).reshape(ws), b, sv, pv, dv, g)
-        oracle = fres(out)
+        out = ref.convnd(np.array(x, dtype=object).reshape(([1] if unbatched else []) + xs), np.array(w, dtype=object).reshape(ws), b, sv, pv, dv, g)
+        oracle = fres(out[0] if unbatched else out)
     except ref.RefError:
         return None
     nontriv = not (all(t == 1 for t in s) and all(t == 0 for t in p) and all(t == 1 for t in d) and g == 1 and not bias)
-    tags = [op, 'groups=%d' % g, 'batch=%d' % N, 'bias' if bias else 'nobias', 'stride:' + forms[0], 'padding:' + forms[1], 'dilation:' + forms[2],
+    if nsp == 1:
+        forms = tuple('array' if f == 'pair' else f for f in forms)
+    tags = [op, 'groups=%d' % g, 'unbatched' if unbatched else 'batch=%d' % N, 'bias' if bias else 'nobias', 'stride:' + forms[0], 'padding:' + forms[1], 'dilation:' + forms[2],
             's=%s' % oi(list(s)), 'p=%s' % oi(list(p)), 'd=%s' % oi(list(d)), 'dt=' + dt]
     if nsp == 1:
-        h = H_C1
+        h = H_C1A if arr1 else H_C1
     else:
         h = H_C2B if bias else H_C2A
     c = Case(req, h, oracle=oracle, model=model, nontrivial=nontriv, tags=tags)
-    # on-domain = hypotheses of conv1d_eq_nested_loop / conv2d_eq_nested_loop: groups = 1 or one output channel per group
-    c.dom = not k_conv_groups(c)
+    # on-domain = hypotheses of conv1d_eq_nested_loop / conv2d_eq_nested_loop: a batched input, groups = 1 or one output channel per group
+    c.dom = not k_conv_groups(c) and not unbatched
     return c
 
 
@@ -288,6 +306,30 @@ def gen_conv1d(tier, rng):
                                         c = conv_case(rng, 1, 3 - N, C, g, O, [L], [K], [s], [p], [d], not bias, forms, dt)
                                         if c is not None:
                                             yield c
+                                    # the same point with one-element index arrays as arguments (forms served by h_c17_conv1d_arr)
+                                    if tier != 'quick' or (h >> 9) % 3 == 0:
+                                        combos = [('pair', 'pair', 'pair'), ('pair', 'int', 'pair'), ('int', 'pair', 'int')]
+                                        if s == 1 and d == 1:
+                                            combos.append(('none', 'pair', 'none'))
+                                        if p == 0:
+                                            combos.append(('pair', 'none', 'pair'))
+                                        c = conv_case(rng, 1, N, C, g, O, [L], [K], [s], [p], [d], bool((h >> 11) & 1), combos[(h >> 12) % len(combos)], 'f')
+                                        if c is not None:
+                                            yield c
+    # unbatched inputs (C, L): outside the property's quantifier (batch 1..2) and outside the theorems, PyTorch accepts them;
+    # the code reshapes the sum by conv_reshape_reduce in a branch of its own
+    # (groups = 1 only: with groups > 1 the unchanged code gives the shape (O/g, g*L_out), recorded in known/C17.json as
+    # conv.unbatched-groups, status outside-quantifier; fixes/C17-conv-groups-interleaved repairs it on the way)
+    for t in range(120 if tier == 'quick' else 1500):
+        C = rng.randint(1, 4); g = 1; O = g * rng.randint(1, 3)
+        L = rng.randint(1, 6); K = rng.randint(1, 3); s_ = rng.randint(1, 3); p_ = rng.randint(0, 2); d_ = rng.randint(1, 2)
+        if ref.conv_out_size(L, K, s_, p_, d_) <= 0:
+            continue
+        key = 'c1u %d %d %d %d %d %d %d %d' % (C, g, O, L, K, s_, p_, d_)
+        forms = (pick_form(key + 's', [s_], 1, False), pick_form(key + 'p', [p_], 0, False), pick_form(key + 'd', [d_], 1, False))
+        c = conv_case(rng, 1, None, C, g, O, [L], [K], [s_], [p_], [d_], bool(rng.randint(0, 1)), forms, 'f')
+        if c is not None:
+            yield c
     # beyond the property's grid: larger extents / kernels / strides, seeded
     for t in range(150 if tier == 'quick' else 3000):
         C = rng.randint(1, 6); g = rng.choice(divisors(C)); O = g * rng.randint(1, 3)
@@ -335,6 +377,11 @@ def gen_conv2d(tier, rng):
         if c is not None:
             made += 1
             yield c
+            if made % 8 == 0 and g == 1:
+                # the same point on an unbatched input (C, H, W)
+                c = conv_case(rng, 2, None, C, g, O, [H, W], [kh, kw], s, p, d, bias, forms)
+                if c is not None:
+                    yield c
 
 
 def nm_pool_extent(n, k, s, ceil):
@@ -600,6 +647,8 @@ def gen_witnesses(tier, rng):
     path = os.path.join(os.path.dirname(os.path.dirname(os.path.dirname(os.path.abspath(__file__)))), 'known', 'C17.json')
     hmap = {'conv1d': H_C1, 'pool_shape': H_POOL, 'max_pool2d': H_POOL, 'avg_pool2d': H_POOL, 'batch_norm': H_NORM, 'bilinear': H_LIN}
     for e in json.load(open(path)):
+        if e.get('status', 'open') != 'open':
+            continue            # recorded only (e.g. outside the property's quantifier): suppresses nothing, not re-executed
         req = e['witness']
         op = req.split(' ')[0]
         h = hmap.get(op) or (H_C2A if argstr(req)['b'] == 'None' else H_C2B)
